@@ -561,6 +561,29 @@ class _Normaliser:
                 return ast.fix_missing_locations(ast.copy_location(n, st))
             node = ast.If(test=ie.test, body=self.stmt(mk(ie.body), depth), orelse=self.stmt(mk(ie.orelse), depth))
             return [ast.fix_missing_locations(ast.copy_location(node, st))]
+        # x = list(self._gen(...)) / return list(self._gen(...)) where _gen is a generator of plain `yield v` statements:
+        # the generator body with `yield v` -> `acc.append(v)`
+        if depth > 0 and isinstance(st, (ast.Assign, ast.Return)) and isinstance(st.value, ast.Call) and isinstance(st.value.func, ast.Name) \
+                and st.value.func.id in ('list', 'tuple', 'sorted') and len(st.value.args) == 1 and not st.value.keywords and isinstance(st.value.args[0], ast.Call):
+            gcall = st.value.args[0]
+            gc = self.callee(gcall)
+            if gc is not None and gc[2] not in self.stack and gc[0].name not in ANCHOR_CALLS:
+                got = self._inline_generator(gcall, gc[0], gc[1])
+                if got is not None:
+                    gbody, acc = got
+                    self.stack.append(gc[2])
+                    gbody = self.block(gbody, depth - 1)
+                    self.stack.pop()
+                    wrapped: ast.AST = ast.Name(id=acc, ctx=ast.Load())
+                    if st.value.func.id != 'list':
+                        wrapped = ast.Call(func=ast.Name(id=st.value.func.id, ctx=ast.Load()), args=[wrapped], keywords=[])
+                    tail: ast.stmt = ast.Return(value=wrapped) if isinstance(st, ast.Return) else ast.Assign(targets=st.targets, value=wrapped)
+                    outg = gbody + [tail]
+                    for n_ in outg:
+                        if not hasattr(n_, 'lineno'):
+                            ast.copy_location(n_, st)
+                        ast.fix_missing_locations(n_)
+                    return outg
         # statement-level helper calls
         if depth > 0:
             call = None
@@ -600,6 +623,59 @@ class _Normaliser:
                         _ = _copy
                         return body or [ast.copy_location(ast.Pass(), st)]
         return [st]
+
+    def _inline_generator(self, call: ast.Call, callee: FuncNode, is_method: bool) -> T.Optional[T.Tuple[T.List[ast.stmt], str]]:
+        import copy as _copy
+        body = [s for s in callee.body if not (isinstance(s, ast.Expr) and isinstance(s.value, ast.Constant))]
+        ys = [n for st in body for n in walk_no_nested(st) if isinstance(n, (ast.Yield, ast.YieldFrom))]
+        if not ys or _count_stmts(body) > _INLINE_MAX_STMTS or callee.args.vararg or callee.args.kwarg or callee.decorator_list:
+            return None
+        stmt_yields = {id(st.value) for st0 in body for st in ast.walk(st0) if isinstance(st, ast.Expr) and isinstance(st.value, ast.Yield) and st.value.value is not None}
+        if any(isinstance(y, ast.YieldFrom) or id(y) not in stmt_yields for y in ys):
+            return None
+        if any(isinstance(n, ast.Return) for st in body for n in walk_no_nested(st)):
+            return None
+        if any(isinstance(n, (ast.FunctionDef, ast.AsyncFunctionDef, ast.ClassDef, ast.Global, ast.Nonlocal)) for st in body for n in ast.walk(st)):
+            return None
+        if is_method and not (isinstance(call.func, ast.Attribute) and attr_chain(call.func.value) == 'self'):
+            return None
+        try:
+            bound = bind_args(call, callee)
+        except Undecided:
+            return None
+        self.uid += 1
+        uid = self.uid
+        ps = params(callee) + [a.arg for a in callee.args.kwonlyargs]
+        pos = [a for a in callee.args.posonlyargs + callee.args.args if a.arg not in ('self', 'cls')]
+        defaults = dict(zip([a.arg for a in pos][len(pos) - len(callee.args.defaults):], callee.args.defaults))
+        body = [_copy.deepcopy(s) for s in body]
+        assigned = {n.id for st in body for n in ast.walk(st) if isinstance(n, ast.Name) and isinstance(n.ctx, (ast.Store, ast.Del))}
+        mapping: T.Dict[str, ast.AST] = {}
+        pre: T.List[ast.stmt] = []
+        for p_ in ps:
+            a = bound.get(p_, defaults.get(p_))
+            if a is None:
+                return None
+            if (isinstance(a, (ast.Name, ast.Constant)) or attr_chain(a) is not None) and p_ not in assigned:
+                mapping[p_] = a
+            else:
+                nm = f'{p_}__g{uid}'
+                pre.append(ast.Assign(targets=[ast.Name(id=nm, ctx=ast.Store())], value=_copy.deepcopy(a)))
+                mapping[p_] = ast.Name(id=nm, ctx=ast.Load())
+        for nm in assigned:
+            mapping.setdefault(nm, ast.Name(id=f'{nm}__g{uid}', ctx=ast.Load()))
+        acc = f'acc__g{uid}'
+
+        class _Y(ast.NodeTransformer):
+            def visit_Expr(self, n: ast.Expr) -> ast.AST:
+                if isinstance(n.value, ast.Yield):
+                    return ast.copy_location(ast.Expr(value=ast.Call(func=ast.Attribute(value=ast.Name(id=acc, ctx=ast.Load()), attr='append', ctx=ast.Load()),
+                                                                     args=[n.value.value], keywords=[])), n)
+                return n
+        rn = _Rename(mapping)
+        out = [ast.Assign(targets=[ast.Name(id=acc, ctx=ast.Store())], value=ast.List(elts=[], ctx=ast.Load()))] + pre
+        out += [rn.visit(_Y().visit(s_)) for s_ in body]
+        return out, acc
 
     @staticmethod
     def _pair_loop(name: str, k: ast.AST, v: ast.AST, g: ast.comprehension) -> ast.For:
